@@ -256,4 +256,27 @@ theorem vamSend_spec {deep guarded : Nat} {copyable : Bool} (h : (deep == 1 && !
   · have : shouldTransmit c = false := by simpa using hs
     simp [vamSend, this]
 
+/-! ### round 5: the request's event position under a deep snapshot -/
+theorem callerStep_deep (s : SnapSt) (op : CallerOp) (h : s.sh = ⟨false, false, false⟩) :
+    (callerStep s op).sh = ⟨false, false, false⟩ ∧ (callerStep s op).req = s.req := by
+  cases op <;> simp [callerStep, h]
+
+theorem callerRun_deep (ops : List CallerOp) (s : SnapSt) (h : s.sh = ⟨false, false, false⟩) :
+    (ops.foldl callerStep s).sh = ⟨false, false, false⟩ ∧ (ops.foldl callerStep s).req = s.req := by
+  induction ops generalizing s with
+  | nil => exact ⟨h, rfl⟩
+  | cons op rest ih =>
+    have h1 := callerStep_deep s op h
+    have h2 := ih (callerStep s op) h1.1
+    exact ⟨h2.1, h2.2.trans h1.2⟩
+
+theorem repsFrom_deep (hist : List (List CallerOp)) (s : SnapSt) (h : s.sh = ⟨false, false, false⟩) :
+    repsFrom s hist = List.replicate hist.length s.req := by
+  induction hist generalizing s with
+  | nil => rfl
+  | cons ops rest ih =>
+    have h1 := callerRun_deep ops s h
+    simp only [repsFrom, List.length_cons, List.replicate_succ, h1.2]
+    rw [ih _ h1.1, h1.2]
+
 end FlexModel.Fac.MappingLemmas
